@@ -183,7 +183,7 @@ def mark_blocks(u, c):
         want = {"join": ("Ready", "None"), "try_join": ("Ready", "None"), "merge": ("None",), "race_ok": ("Ready", "None"),
                 "future_group": ("None",), "stream_group": ("None",)}[fam]
         for b, variant, idx, base, where in scan.state_sets(bi):
-            if variant in want and (common.same_index(u, c, idx) or zip_state_same(bi, c, b)):
+            if variant in want and (common.same_index(u, c, idx, b) or zip_state_same(bi, c, b)):
                 blocks.append(b)
     if fam in ("race", "race_ok", "zip", "chain", "try_join"):
         for b, pt, v, sp in scan.field_writes(bi):
